@@ -1,5 +1,6 @@
 """C19 Documented metric/axis/output combinations never crash."""
 import os
+import zlib
 import random
 
 from vmon import gen, runner
@@ -11,7 +12,7 @@ RULE = ("cross product of (every valid metric class + the 28 diagrams) x (19 -x 
         "A case is one command line; its signature is (metric, axis, type, variant, shape); every combination is a "
         "distinct obligation, so every executed signature counts as non-trivial. Oracle: outcome must be 'output "
         "produced' or 'error message + non-zero exit'; anything else (exception, silent exit, no output) is a violation.")
-ASSUMPTIONS = ["matplotlib Agg backend; figures are not saved except in a sample (savefig is exercised by C17)",
+ASSUMPTIONS = ["matplotlib Agg backend; every diagram / map / rank / impact figure and a sixth of the standard-metric figures are rendered in memory (canvas.draw); files are written by C17",
                "cartopy is absent, so map types use the plain-axes path"]
 REQUIRED_COUNTERS = ["runs", "ok", "error_exit"]
 TIMEOUT = {"quick": 1200, "thorough": 7200}
@@ -24,7 +25,7 @@ AXES = [None, "time", "leadtime", "year", "month", "week", "day", "timeofday", "
         "dayofmonth", "location", "elev", "lat", "lon", "threshold", "leadtimeday", "no", "obs", "fcst"]
 TYPES = ["plot", "text", "csv", "map", "rank", "maprank", "impact", "mapimpact"]
 VARIANTS = ["none", "r1", "r3", "q2", "r1q1", "b_within", "agg_median", "b_below_eq", "r1_within", "q1", "agg_min", "agg_range", "agg_iqr", "agg_q", "agg_count", "sub_tod", "sub_d", "sub_o", "r3_aggmax", "r3_aggq"]
-SHAPES = ["prob2", "single", "allmiss", "det1", "nc2c", "five"]
+SHAPES = ["prob2", "single", "allmiss", "det1", "nc2c", "five", "noobs"]
 
 
 def metric_names():
@@ -48,6 +49,14 @@ def build_shape(shape, workdir, seed):
             inp["locs"] = [s0]
             inp["cells"] = {k: v for k, v in inp["cells"].items()
                             if k.split("|")[0] == str(t0) and k.split("|")[2] == gen.fnum(s0[0])}
+    elif shape == "noobs":
+        # observations have not arrived yet: every obs is missing, so no case is valid anywhere
+        ds = gen.make_dataset(rng, n_inputs=2, fmt="text", prob=True, ens=True, pit=True, miss=0.05, sparse=0.0,
+                              thresholds=[0.0, 5.0, 10.0], quantiles=[0.1, 0.5, 0.9], same_dims=True)
+        for inp in ds["inputs"]:
+            for c in inp["cells"].values():
+                c["obs"] = None
+                c["pit"] = None
     elif shape == "allmiss":
         ds = gen.make_dataset(rng, n_inputs=2, fmt="text", prob=True, ens=True, pit=True, miss=0.05, sparse=0.0,
                               thresholds=[0.0, 5.0, 10.0], quantiles=[0.1, 0.5, 0.9], same_dims=True)
@@ -199,6 +208,16 @@ def run_one(ctx, shapes, combo):
     argv = build_argv(shapes[sh], m, ax, ty, v)
     o = runner.run_cli(argv, keep_fig=True)
     kind, key, msg = judge(o, ty)
+    if kind == "ok" and ty not in ("csv", "text") and o.fig is not None and \
+            (m in DIAGRAMS or ty != "plot" or zlib.crc32(repr(combo).encode()) % 6 == 0):
+        # the figure must also be drawable (what -f or the interactive window does next); rendered in memory
+        ctx.count("figures_rendered")
+        try:
+            o.fig.canvas.draw()
+        except Exception as e:
+            import traceback
+            kind, key = "violation", "figure-cannot-be-drawn|%s|type=%s" % (type(e).__name__, ty)
+            msg = "the figure was built but rendering it fails:\n" + "".join(traceback.format_exception(type(e), e, e.__traceback__)[-6:])
     mpl.close("all")
     ctx.count("runs")
     ctx.count(kind)
